@@ -383,12 +383,18 @@ Definition R_stacked_unique (m : mm) : Prop :=
   forall c, In c (classes m) ->
     NoDup (map p_name (stacked_props m (c_name c))) /\ NoDup (stacked_methods m (c_name c)).
 
+(** top-level names are unique across ALL kinds: a constant must not be named like a
+    class, a verification function not like an enumeration, ... *)
+Definition toplevel_names (m : mm) : list text := type_names m ++ consts m ++ fun_names m.
+Definition R_toplevel_unique (m : mm) : Prop := NoDup (toplevel_names m).
+
 Definition Rules (r : reserved) (m : mm) : Prop :=
   R_types_unique m /\ R_bases_exist m /\ R_acyclic m
   /\ R_types_free r m /\ R_members_unique m /\ R_members_free r m
   /\ R_consts_unique m /\ R_consts_free r m /\ R_funs_unique m /\ R_funs_free r m
   /\ R_no_redeclare m /\ R_ctor m /\ R_shapes m /\ R_invs_unique m
-  /\ R_refs m /\ R_patterns m /\ R_stacked_unique m.
+  /\ R_refs m /\ R_patterns m /\ R_stacked_unique m
+  /\ R_toplevel_unique m.
 
 (** * The rules, executably *)
 
@@ -475,12 +481,14 @@ Definition stacked_uniqueb (m : mm) : bool :=
   forallb (fun c => nodupb (map p_name (stacked_props m (c_name c)))
                     && nodupb (stacked_methods m (c_name c))) (classes m).
 
+Definition toplevel_uniqueb (m : mm) : bool := nodupb (toplevel_names m).
+
 Definition rulesb (r : reserved) (m : mm) : bool :=
   types_uniqueb m &&& (bases_existb m &&& (acyclicb m
   &&& (types_freeb r m &&& (members_uniqueb m &&& (members_freeb r m
   &&& (consts_uniqueb m &&& (consts_freeb r m &&& (funs_uniqueb m &&& (funs_freeb r m
   &&& (no_redeclareb m &&& (ctorb m &&& (shapesb m &&& (invs_uniqueb m
-  &&& (refsb m &&& (patternsb m &&& stacked_uniqueb m))))))))))))))).
+  &&& (refsb m &&& (patternsb m &&& (stacked_uniqueb m &&& toplevel_uniqueb m)))))))))))))))).
 
 (** Per-rule verdicts (diagnostics for the harness; the stacking-dependent rules are
     only evaluated on a well-founded hierarchy with unique type names). *)
@@ -492,4 +500,4 @@ Definition rule_verdicts (r : reserved) (m : mm) : list bool :=
     (if wf then no_redeclareb m else true); (if wf then ctorb m else true);
     shapesb m; (if wf then invs_uniqueb m else true);
     (if wf then refsb m else true); patternsb m;
-    (if wf then stacked_uniqueb m else true) ].
+    (if wf then stacked_uniqueb m else true); toplevel_uniqueb m ].
